@@ -5,7 +5,7 @@ import z3
 from pyvc import terms as T
 from pyvc import spec as S
 from pyvc.spec import And, Or, Not, Implies, If, cells, length, concat, pyslice, is_slice
-from pyvc.contract import (Contract, Shape, Loop, IntT, BoolT, StrT, FmtT, ChunkT, SliceT, ConstT, NoneT, OtherT,
+from pyvc.contract import (Contract, Shape, Loop, IntT, BoolT, StrT, FmtT, ChunkT, SliceT, ConstT, NoneT, OtherT, ObjT,
                            ItemListT, PLAIN)
 from pyvc.values import Sym, SliceV, fresh
 
@@ -307,3 +307,43 @@ chunk_width = Contract(M + "Chunk.width", "C10", ["self"], kind="property", shap
 from pyvc.loops import COLORSTR, STRFOLD
 chunk_str = Contract(M + "Chunk.__str__", "C01", ["self"], kind="method", shapes=[],
                      result=lambda a, st: Sym("str", COLORSTR(a.self)))
+
+
+# ---------------------------------------------------------------------------------------------
+# Chunk.width (own body) and FmtStr.width_at_offset                                       C10
+#   ASSUMED external: cwcwidth.wcswidth(s[, n]) = WCS(s[:n]) = sum of wcwidth, or -1 if some character
+#   has no width; under the quantifier of C10 (narrow / wide / combining characters) WCS(s) >= 0.
+# ---------------------------------------------------------------------------------------------
+def _wcswidth_result(a, st):
+    from pyvc.values import mk_int
+    s = a.pwcs if z3.is_expr(a.pwcs) else T.str_term(a.pwcs)
+    if a.n is None:
+        return mk_int(T.WCS(s))
+    n = a.n if z3.is_expr(a.n) else z3.IntVal(a.n)
+    pre = T.pyslice_term(s, z3.IntVal(0), n)
+    st.fact(Implies(T.WCS(s) >= 0, T.WCS(pre) >= 0))     # a prefix of a measurable string is measurable
+    return mk_int(T.WCS(pre))
+
+
+wcswidth_ext = Contract("ext:formatstring.wcswidth", "C10", ["pwcs", "n"], defaults={"n": None}, shapes=[],
+                        result=_wcswidth_result, doc="ASSUMED: cwcwidth.wcswidth(s, n) == WCS(s[:n]); probed per code point in C10's bounded suite")
+wcswidth_ext.assumed = True
+
+
+class _ChunkObj:
+    pass
+
+
+chunk_width_body = Contract(
+    M + "Chunk.width#body", "C10", ["self"], kind="property",
+    shapes=[Shape("any", dict(self=ObjT("Chunk", dict(_s=StrT(plain=False)))))],
+    requires=lambda a: T.WCS(a.self._s) >= 0,            # every character has a width (C10 quantifier)
+    ensures=lambda a, r: [("post.width", r == T.WCS(a.self._s))],
+    callees={"wcswidth": "ext:formatstring.wcswidth"})
+
+width_at_offset = Contract(
+    M + "FmtStr.width_at_offset", "C10", ["self", "n"], kind="method",
+    shapes=[Shape("any", dict(self=FmtT(), n=_I(0)))],
+    requires=lambda a: T.WCS(T.TEXT(T.FmtS.chunks(a.self))) >= 0,
+    ensures=lambda a, r: [("post.prefix_width", r == T.WCS(T.pyslice_term(T.TEXT(T.FmtS.chunks(a.self)), z3.IntVal(0), a.n)))],
+    callees={"wcswidth": "ext:formatstring.wcswidth"})
